@@ -684,7 +684,8 @@ class IRGenerator:
             env = self._get_or_create_env(namespace.name)
 
             # do annotations before everything else, since populating aliases
-            # and datatypes involves setting annotations
+            # and datatypes involves setting annotations (also annotations
+            # of other namespaces, whichever namespace comes first)
             for annotation in namespace.annotations:
                 if isinstance(annotation, CustomAnnotation):
                     loc = annotation._ast_node.lineno, annotation._ast_node.path
@@ -715,6 +716,9 @@ class IRGenerator:
                         )
 
                     annotation.set_attributes(annotation_type)
+
+        for namespace in self.api.namespaces.values():
+            env = self._get_or_create_env(namespace.name)
 
             for alias in namespace.aliases:
                 data_type = self._resolve_type(env, alias._ast_node.type_ref)
